@@ -2,33 +2,61 @@
 
 
 def classify(case):
-    """a history in which the administrator asks for a hold ending exactly at the current clock value"""
+    """the recorded finding: the administrator asks for a hold ending exactly at the current clock value. Only the
+    dedicated minimal scenario (one snap, nothing but ticks around the request) is keyed, so that any other
+    violation is still reported."""
     i = case.get("input") or {}
+    ops = i.get("ops") or []
+    if i.get("n") != 1 or not all(o.get("k") in ("tick", "syshold") for o in ops):
+        return None
     now = 0
-    for op in i.get("ops") or []:
+    for op in ops:
         if op.get("k") == "tick":
             now += op.get("d", 0)
         elif op.get("k") == "syshold" and not op.get("forever") and op.get("t", 0) == now:
-            # only the dedicated minimal scenario is keyed: one snap, nothing but ticks around the request
-            if i.get("n") == 1 and all(o.get("k") in ("tick", "syshold") for o in i["ops"]):
-                return "system-hold-until-now"
+            return "system-hold-until-now"
     return None
 
 
 SPEC = dict(
     prop="C15",
     disabled="under construction",
+    # only main.go + holdconsts.go are compiled, so another builder's half-written translator cannot break this one
     gens=[dict(name="HoldConsts", cmd=["go", "run", "-C", "translators", "main.go", "holdconsts.go", "holdconsts"],
-               what="maxPostponement, maxPostponementBuffer, maxOtherHoldDuration, maxDuration; both gating call sites pass the zero duration")],
+               what="maxPostponement, maxPostponementBuffer, maxOtherHoldDuration, maxDuration; both gating call sites "
+                    "(snapctl refresh --hold, gate-auto-refresh hook error path) pass the zero duration at the auto-refresh level")],
     drivers=[
         dict(name="holds", kind="test", pkg="./overlord/snapstate", run="TestVerifC15Holds",
-             n=dict(quick=250, thorough=6000), timeout=dict(quick=300, thorough=1200),
+             n=dict(quick=120, thorough=6000), timeout=dict(quick=300, thorough=1500),
              ev=dict(requires=["V.models.Holds"], case_type="Holds.case",
                      mismatch="Holds.mismatch", monitor="Holds.monitor_fail")),
     ],
     classify=classify,
-    rule="",
+    rule=("histories of 6-25 operations on 2-4 installed snaps run against the real HoldRefresh / HoldRefreshesBySystem / "
+          "ProceedWithRefresh / resetGatingForRefreshed / HeldSnaps with the package clock (timeNow) and LastRefreshTime set by the "
+          "driver; after EVERY operation the snaps-hold table (first-held, hold-until, level), HeldSnaps at both levels, the "
+          "result (remaining duration / refused) and the clock are recorded. Fixed part: the finding scenario; snap 1 holding "
+          "itself and snap 2 three times with every pair of waits from {1ns,47h,48h-1ns,48h,48h+1ns,10d} for three initial "
+          "last-refresh times (108 histories); self holds around the 90 day bound; system holds (timed and forever) across a "
+          "refresh; the explicit-duration witness. Random part: op mix hold 36% / system hold 10% / proceed 8% / refresh 10% / "
+          "reset or last-refresh alone 6% / tick 30%, ticks landing on or 1 ns next to 48h/90d/95d after earlier events; every "
+          "fifth history also uses explicit durations and HoldRefresh with holder system (compared with the model only). "
+          "Non-trivial = a history in which a gating snap's hold was reported and a request was refused."),
     exhaustive=dict(quick=False, thorough=False),
-    trusted_base=[],
-    assumptions=[],
+    trusted_base=[
+        "translators/holdconsts.go (go/ast): constant expressions of the four durations; shape of the two HoldRefresh call sites",
+        "hand-written model coq/models/Holds.v of overlord/snapstate/autorefresh_gating.go, tied by the differential run "
+        "(harness/overlay/overlord/snapstate/zz_verif_c15_test.go): the whole snaps-hold table and HeldSnaps are compared after every operation",
+        "time.Time arithmetic is modelled as unbounded integer nanoseconds with Sub saturating at int64; monotonic clock readings, "
+        "the mtime fallback of lastRefreshed (snaps without LastRefreshTime) and encoding/json of the state are not modelled",
+    ],
+    assumptions=[
+        "the clock does not go backwards and no initial last-refresh time lies in the future",
+        "every snap has LastRefreshTime set (the fallback to the snap file's mtime is not exercised)",
+        "the 48 h bound is per hold episode (from the appearance of the entry to its removal by proceed / refresh / refusal), as the "
+        "property states; a gating snap that is refused and asks again later starts a new episode",
+        "resetGatingForRefreshed is modelled for one snap per call (its only call site); pruneGating, pruneSnapsHold (snap removal) are "
+        "not operations of the model: both only delete entries, which preserves every invariant proved",
+        "KNOWN FINDING system-hold-until-now: C15_system_hold is guarded by `requested time <> current instant`",
+    ],
 )
